@@ -20,7 +20,7 @@ from rpv.oracle.reports import FullReport, num, snap, split_dir_type
 
 
 def cli_profile(**kw: Any) -> Profile:
-    base = dict(amount_style="cli", max_sig_digits=15, allow_in_crypto_fee=True, price_style="small", max_events=12, min_events=3, n_exchanges=2, n_holders=2, p_optional_fiat=0.15)
+    base = dict(amount_style="cli", max_sig_digits=15, allow_in_crypto_fee=True, price_style="small", max_events=12, min_events=3, n_exchanges=3, n_holders=2, p_optional_fiat=0.15)
     base.update(kw)
     return Profile(**base)
 
